@@ -165,6 +165,9 @@ func driveC15(args []string) error {
 	}
 	for i := 0; i < *n; i++ {
 		ns := []int{2, 2, 3, 3, 5, 5, 58}[rng.Intn(7)]
+		if i%8 == 3 {
+			ns = []int{2, 3, 2, 5}[i/8%4] // the single-colour gradients below: two stops (one range) and more, by turns
+		}
 		gcase := gradCase{shape: rng.Intn(2), spread: rng.Intn(4), stops: randGradStops(rng, ns), m: mats()}
 		if i%4 == 0 {
 			gcase.spread = 2 // reflect: the triangle wave
